@@ -2,6 +2,7 @@ package c14
 
 import (
 	"fmt"
+	"sort"
 )
 
 func (g *gen) push() { g.f.scopes = append(g.f.scopes, nil) }
@@ -68,6 +69,9 @@ func (g *gen) localType() string {
 	for _, s := range g.pr.Structs {
 		ts = append(append([]string{}, ts...), s.Name, "*"+s.Name)
 	}
+	if g.chance(12) {
+		ts = g.arrTypes()
+	}
 	return ts[g.n(len(ts), "lt")]
 }
 
@@ -104,9 +108,16 @@ func (g *gen) declare(name, typ string, e ex) *vinfo {
 		v.growing = g.chance(50)
 		v.minLen = e.minLen
 		v.appends = e.minLen
+	default:
+		if isArray(typ) {
+			v.minLen, _ = arrSplit(typ)
+		}
 	case "map[int]int", "map[string]int":
 		if e.n != nil && e.n.K == "mlit" {
 			for i := 0; i+1 < len(e.n.A); i += 2 {
+				if e.n.A[i].K != "lit" {
+					continue
+				}
 				if typ == "map[int]int" {
 					v.sureI = append(v.sureI, e.n.A[i].N)
 				} else {
@@ -115,6 +126,7 @@ func (g *gen) declare(name, typ string, e ex) *vinfo {
 			}
 		}
 	}
+	g.selStyle(v)
 	return g.add(v)
 }
 
@@ -207,9 +219,16 @@ func (g *gen) genStmt() (n *Node, term bool) {
 		6,  // 14 struct statement
 		9,  // 15 side-note statements (side.go)
 		0,  // 16 goto
+		0,  // 17 array statement
+	}
+	if len(g.arrayVars(nil)) > 0 {
+		w[17] = 12
 	}
 	if g.gotoProg && g.on(kGoto) {
 		w[16] = 6
+	}
+	if g.f.sig.exported && !g.f.inLambda {
+		w[7] = 14 // the exported functions are where the effects of the helpers become results
 	}
 	if deep {
 		w[2], w[3], w[4], w[10], w[13], w[16] = 2, 0, 0, 0, 0, 0
@@ -218,7 +237,10 @@ func (g *gen) genStmt() (n *Node, term bool) {
 		w[5] = 0
 	}
 	if g.f.inInit {
-		w[6], w[8], w[9] = 0, 0, 0
+		w[8], w[9] = 0, 0
+		if g.f.noGlobals {
+			w[6] = 0 // (the context of package variable initialisers is not a function body)
+		}
 	}
 	if !g.softStmtOK() {
 		w[9] = 0
@@ -280,6 +302,11 @@ func (g *gen) genStmt() (n *Node, term bool) {
 		return g.stAssign(), false
 	case 16:
 		return g.stGoto(), false
+	case 17:
+		if n := g.stArray(); n != nil {
+			return n, false
+		}
+		return g.stAssign(), false
 	default:
 		return g.stStruct(), false
 	}
@@ -299,14 +326,17 @@ func (g *gen) stDefine() *Node {
 		e = fitStore(e)
 	}
 	g.noteExpr(e)
-	useVar := g.chance(20)
+	useVar := g.chance(20) || isArray(typ) && g.chance(40)
 	name := g.newName(!useVar || g.on(kVarShadow))
 	var n *Node
 	if useVar {
 		n = &Node{K: "vardecl", S: name, T: typ, A: []*Node{e.n}}
-		if g.chance(25) && (typ == "int" || typ == "bool" || typ == "string") {
+		if g.chance(25) && (typ == "int" || typ == "bool" || typ == "string") || isArray(typ) && g.chance(60) {
 			n.A = nil // zero value
 			e = ex{ascii: true, short: true}
+			if isArray(typ) {
+				g.mark("array-zero-var")
+			}
 		}
 		g.mark("var-decl")
 	} else {
@@ -328,6 +358,9 @@ func (g *gen) genOfFresh(typ string, d int) (ex, bool) {
 			e = ex{n: &Node{K: "conv", T: "[]byte", A: []*Node{{K: "conv", T: "string", A: []*Node{e.n}}}}, pan: e.pan, hard: e.hard, minLen: e.minLen, short: e.short, fresh: true, maxLen: e.maxLen}
 		}
 		return e, true
+	}
+	if isArray(typ) {
+		return g.arrFresh(typ, d), true
 	}
 	if typ[0] == '*' {
 		// pointers alias in both worlds
@@ -383,12 +416,12 @@ func (g *gen) intTarget() (*Node, bool) {
 		if sd := g.structDef(baseStruct(v.typ)); sd != nil {
 			for _, f := range sd.Fields {
 				if f.Type == "int" {
-					c = append(c, &Node{K: "field", S: f.Name, A: []*Node{vr(v.name)}})
+					c = append(c, &Node{K: "field", S: f.Name, A: []*Node{selBase(v)}})
 				}
 				if nd := g.structDef(f.Type); nd != nil {
 					for _, nf := range nd.Fields {
 						if nf.Type == "int" {
-							c = append(c, &Node{K: "field", S: nf.Name, A: []*Node{{K: "field", S: f.Name, A: []*Node{vr(v.name)}}}})
+							c = append(c, &Node{K: "field", S: nf.Name, A: []*Node{{K: "field", S: f.Name, A: []*Node{selBase(v)}}}})
 						}
 					}
 				}
@@ -420,10 +453,7 @@ func (g *gen) writable(v *vinfo) bool {
 }
 
 func (g *gen) noteWrite(n *Node) {
-	root := n
-	for root.K == "field" || root.K == "index" {
-		root = root.A[0]
-	}
+	root := rootVar(n)
 	for _, v := range g.globals {
 		if v.name == root.S && g.lookup(root.S) == v {
 			g.f.sig.writesG = true
@@ -533,7 +563,7 @@ func (g *gen) stAssign() *Node {
 	default:
 		g.mark("compound-assign")
 		return &Node{K: "seq", B: []*Node{
-			{K: "assign", S: "|=", A: []*Node{t, ilit([]int64{1, 2, 8, 255}[g.n(4, "orc")])}},
+			{K: "assign", S: []string{"|=", "^="}[g.n(2, "orx")], A: []*Node{t, ilit([]int64{1, 2, 8, 255}[g.n(4, "orc")])}},
 			{K: "assign", S: "%=", A: []*Node{t, ilit(1000003)}},
 		}}
 	}
@@ -547,10 +577,7 @@ func (g *gen) pureOKTarget(t *Node) bool {
 	if !g.f.pure {
 		return true
 	}
-	root := t
-	for root.K == "field" || root.K == "index" {
-		root = root.A[0]
-	}
+	root := rootVar(t)
 	v := g.lookup(root.S)
 	if v == nil || v.global {
 		return false
@@ -743,7 +770,7 @@ func (g *gen) stLoop() *Node {
 		iv := &vinfo{name: name, typ: "int", ro: true, lo: 0, hi: float64(N), idxOf: v}
 		g.add(iv)
 		oldRo := v.ro
-		v.ro = true
+		v.ro = v.ro || !isArray(v.typ) // (the length of an array does not change: its elements may be written)
 		g.f.mult *= max(N, 1)
 		n = &Node{K: "for3", A: []*Node{
 			{K: "define", S: name, A: []*Node{ilit(0)}},
@@ -797,6 +824,9 @@ func (g *gen) stLoop() *Node {
 		if v.typ == "string" && !v.ascii && form != 0 && form != 3 {
 			form = 0 // the value of a string range is a rune: only equal to the byte for ASCII content
 		}
+		if isArray(v.typ) && v.typ != "[3]int" && form != 3 {
+			form = 0 // elements that are arrays or structs are reached through the index
+		}
 		if form == 0 || form == 1 {
 			nm := g.newNameAvoid(true, v.name)
 			key = vr(nm)
@@ -806,7 +836,7 @@ func (g *gen) stLoop() *Node {
 			nm := g.newNameAvoid(true, v.name, key.S)
 			val = vr(nm)
 			switch v.typ {
-			case "[]int":
+			case "[]int", "[3]int":
 				g.add(&vinfo{name: nm, typ: "int", lo: -wideB, hi: wideB, ro: true})
 			case "string":
 				g.add(&vinfo{name: nm, typ: "rune", ro: true})
@@ -815,7 +845,8 @@ func (g *gen) stLoop() *Node {
 			}
 		}
 		oldRo := v.ro
-		v.ro = true
+		// (Go ranges over a copy of an array: the body may write the elements without changing what the loop sees)
+		v.ro = v.ro || !isArray(v.typ)
 		g.f.mult *= max(N, 1)
 		n = &Node{K: "range", T: ":=", A: []*Node{key, val, vr(v.name)}}
 		g.useVar(v)
@@ -825,7 +856,7 @@ func (g *gen) stLoop() *Node {
 		g.nest()
 		g.push()
 		pre := []*Node{}
-		if val.K != "none" && v.typ != "[]int" {
+		if val.K != "none" && v.typ != "[]int" && v.typ != "[3]int" {
 			// make the element usable as an int
 			nm := g.newName(false)
 			pre = append(pre, &Node{K: "define", S: nm, A: []*Node{{K: "conv", T: "int", A: []*Node{vr(val.S)}}}})
@@ -838,7 +869,11 @@ func (g *gen) stLoop() *Node {
 		n.B = append(pre, body...)
 		g.leaveLoop(n)
 		v.ro = oldRo
-		g.mark("range-" + map[string]string{"[]int": "slice", "string": "string", "[]byte": "bytes"}[v.typ])
+		if isArray(v.typ) {
+			g.mark("range-array")
+		} else {
+			g.mark("range-" + map[string]string{"[]int": "slice", "string": "string", "[]byte": "bytes"}[v.typ])
+		}
 	case 4: // range over an integer
 		N := g.rng(1, 5, "N")
 		bound := ilit(int64(N))
@@ -931,6 +966,10 @@ func (g *gen) loopContainer() *vinfo {
 			if !v.growing && !v.maybeNil {
 				c = append(c, v)
 			}
+		default:
+			if isArray(v.typ) {
+				c = append(c, v)
+			}
 		}
 	}
 	if len(c) == 0 {
@@ -940,6 +979,9 @@ func (g *gen) loopContainer() *vinfo {
 }
 
 func (g *gen) lenBound(v *vinfo) int {
+	if isArray(v.typ) {
+		return v.minLen
+	}
 	switch v.typ {
 	case "[]int":
 		if v.growing {
@@ -1164,10 +1206,18 @@ func (g *gen) stReturn() *Node {
 	}
 	if g.f.named && g.chance(50) {
 		g.mark("bare-return")
-		if g.f.trace != "" && !g.f.inLambda {
+		fold := g.stateFold()
+		if (g.f.trace != "" || fold != nil) && !g.f.inLambda {
 			for _, r := range g.f.results {
 				if r.Type == "int" {
-					mix := &Node{K: "assign", S: "=", A: []*Node{vr(r.Name), bin("%", bin("+", vr(r.Name), vr(g.f.trace)), ilit(1000003))}}
+					sum := vr(r.Name)
+					if g.f.trace != "" {
+						sum = bin("+", sum, vr(g.f.trace))
+					}
+					if fold != nil {
+						sum = bin("+", sum, fold)
+					}
+					mix := &Node{K: "assign", S: "=", A: []*Node{vr(r.Name), bin("%", sum, ilit(1000003))}}
 					return &Node{K: "seq", B: []*Node{mix, n}}
 				}
 			}
@@ -1189,6 +1239,9 @@ func (g *gen) stReturn() *Node {
 			if g.f.trace != "" && !g.f.inLambda {
 				e = ex{n: bin("%", bin("+", e.n, vr(g.f.trace)), ilit(1000003)), lo: -1000002, hi: 1000002, pan: e.pan, hard: e.hard}
 			}
+			if fold := g.stateFold(); fold != nil {
+				e = ex{n: bin("%", bin("+", e.n, fold), ilit(1000003)), lo: -1000002, hi: 1000002, pan: e.pan, hard: e.hard}
+			}
 		}
 		if r.Type == "bool" && g.f.trace != "" && !g.f.inLambda {
 			e = ex{n: bin("!=", e.n, bin("==", bin("%", vr(g.f.trace), ilit(2)), ilit(0))), pan: e.pan, hard: e.hard}
@@ -1204,6 +1257,43 @@ func (g *gen) stReturn() *Node {
 	}
 	g.f.noPanic = old
 	return n
+}
+
+// stateFold: the package state (up to two int variables) folded into a small int, for the results of exported
+// functions: what the functions called before left behind shows in the value compared with Go. Nil when not wanted.
+func (g *gen) stateFold() *Node {
+	if g.f.inLambda || !g.f.sig.exported || g.f.noGlobals || !g.chance(60) {
+		return nil
+	}
+	var c []*vinfo
+	for _, v := range g.visible() {
+		if v.global && v.typ == "int" {
+			c = append(c, v)
+		}
+	}
+	if len(c) == 0 {
+		return nil
+	}
+	// the trace of the deferred calls first
+	sort.SliceStable(c, func(i, j int) bool { return c[i] == g.markV && c[j] != g.markV })
+	if len(c) > 2 && g.markV != nil {
+		c = append(c[:1], c[1+g.n(len(c)-1, "sf")])
+	} else if len(c) > 2 {
+		i := g.n(len(c)-1, "sf")
+		c = c[i : i+2]
+	}
+	var sum *Node
+	for i, v := range c {
+		g.useVar(v)
+		t := bin("%", vr(v.name), ilit([]int64{1009, 1013}[i]))
+		if sum == nil {
+			sum = t
+		} else {
+			sum = bin("+", sum, t)
+		}
+	}
+	g.mark("state-fold")
+	return sum
 }
 
 // localOwned: a struct value held by a local variable or value parameter may be returned (nobody else sees it).
@@ -1253,6 +1343,18 @@ func (g *gen) stCall() *Node {
 	_ = self
 	if len(cs) == 0 {
 		return g.stAssign()
+	}
+	if g.chance(35) {
+		// rather a function with effects on the package state
+		var ws []*fsig
+		for _, f := range cs {
+			if f.writesG && f != g.f.sig {
+				ws = append(ws, f)
+			}
+		}
+		if len(ws) > 0 {
+			cs = ws
+		}
 	}
 	f := cs[g.n(len(cs), "callee")]
 	args, acc, ok := g.genArgs(f, 2)
@@ -1353,7 +1455,12 @@ func (g *gen) stDefer() *Node {
 	}
 	g.mark("defer")
 	g.f.sig.pure = false
-	if g.chance(60) && !(g.f.recovers && !g.on(kDeferSwallow)) {
+	if g.chance(25) {
+		// the trace helper: which deferred calls ran, and in which order, shows in g8
+		g.mark("defer-call")
+		return &Node{K: "defer", A: []*Node{g.markCall()}}
+	}
+	if g.chance(50) && !(g.f.recovers && !g.on(kDeferSwallow)) {
 		// deferred call of a named function
 		var cs []*fsig
 		for _, f := range g.funcs {
@@ -1407,8 +1514,10 @@ func (g *gen) stDefer() *Node {
 	g.f = lf
 	g.push()
 	var body []*Node
-	rec := outer.recovers
+	// recover() in any of the deferred literals of a recovering function (always in the first one generated)
+	rec := outer.recovers && (!outer.hasRecover || g.chance(60))
 	if rec {
+		outer.hasRecover = true
 		g.mark("recover")
 		switch g.n(3, "rk") {
 		case 0:
@@ -1426,6 +1535,9 @@ func (g *gen) stDefer() *Node {
 	}
 	if !rec || g.chance(60) {
 		st, _ := g.genStmts(2)
+		if g.chance(60) {
+			st = append([]*Node{g.markStmt()}, st...)
+		}
 		// statements in front of the recover() call may leave the literal early (return, panic): then nothing is
 		// recovered in Go, while the compiled code swallows the panic (finding defer-swallows-panic)
 		if g.chance(50) && (!rec || g.on(kDeferSwallow)) {
@@ -1453,12 +1565,14 @@ func (g *gen) genDeferArgs(f *fsig) ([]*Node, ex, bool) {
 		case "int":
 			var c []*vinfo
 			for _, v := range g.varsOf("int") {
-				if !v.wide && !v.global && v.idxOf == nil && g.isParam(v) {
+				if !v.wide && !v.global && v.idxOf == nil && g.isParam(v) || v.global && v.ro && v != g.markV {
 					c = append(c, v)
 				}
 			}
 			if len(c) > 0 && g.chance(50) {
-				args = append(args, vr(c[g.n(len(c), "da")].name))
+				av := c[g.n(len(c), "da")]
+				g.useVar(av)
+				args = append(args, vr(av.name))
 			} else {
 				args = append(args, g.intLit().n)
 			}
@@ -1682,7 +1796,7 @@ func (g *gen) stStruct() *Node {
 					e, _ = g.genFreshOf(f.Type, 1)
 				}
 				g.noteExpr(e)
-				t := &Node{K: "field", S: f.Name, A: []*Node{vr(v.name)}}
+				t := &Node{K: "field", S: f.Name, A: []*Node{selBase(v)}}
 				g.noteWrite(t)
 				g.mark("struct-field-store")
 				return &Node{K: "assign", S: "=", A: []*Node{t, e.n}}
